@@ -98,8 +98,8 @@ impl Polygon {
     /// Devuelve un polígono que es un espejo respecto al eje X
     pub fn mirror_y(&self) -> Self {
         let mirror: Vec<_> = self.0.iter().map(|p| point![p.x, -p.y]).collect();
-        let mut counterclockwise = vec![mirror[0]];
-        counterclockwise.extend(mirror[1..].iter().rev());
+        let mut counterclockwise: Vec<_> = mirror.first().copied().into_iter().collect();
+        counterclockwise.extend(mirror.iter().skip(1).rev());
         Self(counterclockwise)
     }
 
